@@ -83,6 +83,9 @@ def main(tier, rep):
                     progs.append((cfg, steps))
     traces = [L.run_program(cfg, steps) for cfg, steps in progs]
     L.validate(rep, traces, relevant, PROP)
+    # code -> spec on executions the harness did not design: the repository's own integration tests
+    from drivers import repoit
+    repoit.conn_part(rep, PROP, relevant)
     from drivers import connmodel
     connmodel.design_and_replay(rep, tier, PROP, relevant)
     rep.set("evaluations", len(traces))
